@@ -52,6 +52,8 @@ SEAL_GUARD_APPEND = "if base.treats_as_sealed(self):\n        raise base.WritePe
 
 VARIANTS = {
     'C01': [
+        fire('sweep-deletes-live-items', L, 'List._on_change', 'if pg_typing.MISSING_VALUE == item:',
+             'if item is None or pg_typing.MISSING_VALUE == item:', 'C01.d', '_on_change'),
         fire('drop-detach-on-replace', L, 'List._set_item_without_permission_check',
              'old_value.sym_setparent(None)', 'pass', 'C01.d', 'List._set_item_without_permission_check#list.__setitem__'),
         fire('store-unformalized', L, 'List._set_item_without_permission_check',
